@@ -236,8 +236,11 @@ def run(ctx):
     terms = []; owners = []; failures = []; infos = []
     stats = dict(by_kind={}, by_obj={}, executions={}, trials=0, curves=0, promoted=0)
     distinct = 0
-    for i in range(n):
-        cfg = gen_case(ctx.rng)
+    import glob, json
+    corpus = [json.load(open(f))["cfg"] for f in sorted(glob.glob("/verif/corpus/C20/*.json"))]
+    stats["corpus_cases"] = len(corpus)
+    for i in range(n + len(corpus)):
+        cfg = corpus[i] if i < len(corpus) else gen_case(ctx.rng)
         try:
             out = run_case(cfg)
         except Exception as e:
